@@ -1186,6 +1186,9 @@ func conv(t_dst, t_src types.Type, x value) value {
 	ut_dst := t_dst.Underlying()
 	if sx, ok := x.(*sym); ok {
 		if bd, ok := ut_dst.(*types.Basic); ok {
+			if bd.Kind() == types.String {
+				return symRuneToString(t_src, sx)
+			}
 			return symConv(bd.Kind(), sx)
 		}
 		panic(unsupported("conv of symbolic scalar to " + t_dst.String()))
@@ -1540,4 +1543,26 @@ func fandbits[F floaty](x, y F) F {
 		*(*uint64)(unsafe.Pointer(&x)) &= *(*uint64)(unsafe.Pointer(&y))
 	}
 	return x
+}
+
+// symRuneToString implements string(x) for a symbolic integer x: UTF-8 encoding, forked on the
+// encoding length (1 or 2 bytes; larger or negative code points are unsupported).
+func symRuneToString(t_src types.Type, x *sym) value {
+	k := t_src.Underlying().(*types.Basic)
+	cst := func(n int64) value { return conv(t_src, types.Typ[types.Int64], n) }
+	if decideBool(nil, binop(token.LSS, k, x, cst(0))) {
+		panic(unsupported("string(negative symbolic rune)"))
+	}
+	u8 := types.Typ[types.Uint8]
+	if decideBool(nil, binop(token.LSS, k, x, cst(0x80))) {
+		return mkStr([]value{conv(u8, t_src, x)})
+	}
+	if w, _ := kindWidth(k.Kind()); w > 8 {
+		if !decideBool(nil, binop(token.LSS, k, x, cst(0x800))) {
+			panic(unsupported("string(symbolic rune >= 0x800)"))
+		}
+	}
+	hi := binop(token.OR, k, binop(token.SHR, k, x, cst(6)), cst(0xC0))
+	lo := binop(token.OR, k, binop(token.AND, k, x, cst(0x3F)), cst(0x80))
+	return mkStr([]value{conv(u8, t_src, hi), conv(u8, t_src, lo)})
 }
